@@ -226,6 +226,18 @@ if COV_DIR:
     SANITIZERS['cov'] = (['+nightly'], [], '-Cinstrument-coverage', 'debug')
 
 
+def build_jobs():
+    """parallel compiler processes: one per core, but no more than the available memory allows at ~4 GB per process (a compiler
+    killed by the kernel shows up as a build failure that names no program)"""
+    try:
+        for line in open('/proc/meminfo'):
+            if line.startswith('MemAvailable:'):
+                return max(2, min(NCPU, int(line.split()[1]) // (4 * 1024 * 1024)))
+    except Exception:
+        pass
+    return NCPU
+
+
 def build_workspace(wdir, profile='dbg', features_env=None, timeout=3600, log=None, sanitizer=None):
     """cargo build --keep-going. Returns (bins: {member: path or None}, stderr)."""
     if COV_DIR and not sanitizer:
@@ -239,7 +251,7 @@ def build_workspace(wdir, profile='dbg', features_env=None, timeout=3600, log=No
     if sanitizer:
         pre, extra, rustflags, sub = SANITIZERS[sanitizer]
         env['RUSTFLAGS'] = rustflags
-    cmd = ['cargo'] + pre + ['build', '--offline', '--keep-going', '-j', str(NCPU)] + extra
+    cmd = ['cargo'] + pre + ['build', '--offline', '--keep-going', '-j', os.environ.get('CARGO_BUILD_JOBS', str(build_jobs()))] + extra
     p = subprocess.run(cmd, cwd=wdir, env=env, stdout=subprocess.PIPE, stderr=subprocess.STDOUT, timeout=timeout, text=True)
     members = sorted(d for d in os.listdir(wdir) if d.startswith('shard'))
     bins = {}
